@@ -25,7 +25,7 @@ def sure_materialised(st):
         return [st["src"]] if is_alias_ix(st["ix"]) else []
     if op == "colagg":
         return [st["src"]] if st["f"] in ("sum0", "mean0") else []
-    if op == "to_numpy":
+    if op in ("to_numpy", "new_like"):
         return []
     if op in ("ufunc1", "pyop1", "reduce", "scan", "like", "nonzero", "rslice", "padded", "astype",
               "saveload", "save", "concat", "where", "subset", "ufunc2", "pyop2", "assign", "fill"):
